@@ -324,6 +324,14 @@ func runPool(res *vkit.Result, p Pool) {
 		return
 	}
 	if err != nil && p.ShotPanic {
+		// the pool failed, as it must; whatever was acquired — the item in the hands of the gun that
+		// panicked included — has been handed back exactly once by the time the engine is through
+		if acq, rel := prov.Acquired.Load(), prov.Released.Load(); acq != rel {
+			fail("release-after-panic", "a shot panicked and the pool failed: %d ammo items were acquired, %d released", acq, rel)
+		}
+		if prov.Misuse.Load() != 0 {
+			fail("ammo-state", "ammo state machine violated: %v", prov.MisuseLog)
+		}
 		res.Count("pools_failed_on_shot_panic", 1)
 		res.Eval(vkit.JSON(p), true)
 		return
